@@ -588,7 +588,7 @@ class SymEval:
             if isinstance(proj, tuple):
                 _, tmpl, inner_elem, inner_conds = proj
                 m = {inner_elem: el} if inner_elem is not None else {}
-                if inner_elem is not None and inner_elem[0] == "elem" and inner_elem[2] in self.loops and inner_elem[2] not in self.loop_stack:
+                if inner_elem is not None and inner_elem[0] == "elem" and inner_elem[2] in self.loops and self.loops[inner_elem[2]].kind == "for" and inner_elem[2] not in self.loop_stack:
                     # a second pass over what an earlier (finished) loop over the same source collected: its items keep naming that
                     # loop's element (the same slot, in the same order), so what the two passes do to one item can be compared
                     m = {}
